@@ -43,7 +43,8 @@ class ModuleInfo:
                     self.assigns[st.target.id] = st.value
             elif isinstance(st, ast.Import):
                 for a in st.names:
-                    self.imports[a.asname or a.name.split(".")[0]] = (a.name, None)
+                    # `import a.b` binds the name `a` to the package a; `import a.b as c` binds c to the submodule
+                    self.imports[a.asname or a.name.split(".")[0]] = (a.name if a.asname else a.name.split(".")[0], None)
             elif isinstance(st, ast.ImportFrom):
                 mod = self._abs_module(st.module, st.level)
                 for a in st.names:
